@@ -4,6 +4,6 @@
    the extracted inductives: no Extract Constant / Extract Inductive of our own. *)
 Require Import ExtrOcamlBasic.
 From UomV Require Import Model.Tables Model.Conv Model.FloatM Model.FloatOps Model.Exact
-  Model.Quantity Model.Storages Model.Duration Model.Text Model.Typing Model.Fixed Model.Run Proofs.AccRun.
+  Model.Quantity Model.Storages Model.Duration Model.Text Model.Typing Model.Fixed Model.DurationW Model.Run Proofs.AccRun.
 Extraction Language OCaml.
-Extraction "model.ml" run32 run64 q_run z_run text_run typing_run crun32 crun64 acc_run32 acc_run64 w_run.
+Extraction "model.ml" run32 run64 q_run z_run text_run typing_run crun32 crun64 acc_run32 acc_run64 w_run dw_run.
